@@ -42,6 +42,8 @@ def groups(tier, seed):
     # keys some rows have no value for, next to negative and fractional values; whole numbers beyond 2^53; years beyond 9999
     for fam in ('empty', 'bigint', 'fardate'):
         yield {'kind': 'oddkeys', 'fam': fam, 'keys': [fam], 'cases': []}
+    # standard output is a terminal (names are coloured there): the order is that of the values, not of their decoration
+    yield {'kind': 'tty', 'keys': ['tty'], 'cases': []}
     for kl in lists:
         n = len(kl)
         if True:
@@ -57,12 +59,17 @@ def groups(tier, seed):
                             if spell == 'decoy' and (where or n > 2):
                                 continue
                             cases.append({'dirs': list(dirs), 'spell': spell, 'where': where, 'rd': rd})
+                            if where and spell == 'explicit' and n == 1 and (om.KEYS[kl[0]][0] != 'str' or kl[0] in ('name', 'path', 'upper(name)')):
+                                # the key is mentioned on the right of an OR only (rows let through by the left side never evaluate it)
+                                cases.append({'dirs': list(dirs), 'spell': spell, 'where': 'or', 'rd': rd})
                             if 'modified' in kl and spell == 'explicit' and not where and n <= 2:
                                 cases.append({'dirs': list(dirs), 'spell': spell, 'where': where, 'rd': rd, 'tz': 'Europe/Berlin'})
             yield {'keys': list(kl), 'cases': cases}
 
 
 def single(case):
+    if case.get('kind') == 'tty':
+        return {'kind': 'tty', 'keys': ['tty'], 'cases': [], 'only': case['query']}
     if case.get('kind') == 'oddkeys':
         return {'kind': 'oddkeys', 'fam': case['fam'], 'keys': [case['fam']], 'cases': [], 'only': [case['key'], case['desc'], case['rd'], case['limit']]}
     if case.get('kind') == 'arcdate':
@@ -122,6 +129,68 @@ def eval_arcdate(env, group):
                         else:
                             res.update(status='ok', sig=tuple(p_ for p_, _ in dated))
                     outs.append(res)
+    finally:
+        env.rmtree(root)
+    return outs
+
+
+def run_on_terminal(env, argv, cwd, extra_env):
+    """the subject with a pseudo terminal as standard output; returns (status, text with the escape sequences removed)"""
+    import os
+    import pty
+    import re
+    import subprocess
+    e = dict(env.baseenv)
+    e.pop('NO_COLOR', None)
+    e.update(extra_env)
+    master, slave = pty.openpty()
+    env.runs += 1
+    p = subprocess.Popen([env.binary] + argv, cwd=cwd, env=e, stdin=subprocess.DEVNULL, stdout=slave, stderr=subprocess.PIPE, start_new_session=True)
+    os.close(slave)
+    chunks = []
+    while True:
+        try:
+            data = os.read(master, 65536)
+        except OSError:
+            break
+        if not data:
+            break
+        chunks.append(data)
+    os.close(master)
+    _, err = p.communicate(timeout=20)
+    text = b''.join(chunks).decode('utf-8', 'replace').replace('\r\n', '\n')
+    return p.returncode, re.sub(r'\x1b\[[0-9;]*[A-Za-z]', '', text), err, text
+
+
+def eval_tty(env, group):
+    import os
+    root = env.newdir('c5t')
+    F, D = core.F, core.D
+    core.materialise(root, {'zeta.txt': F(1), 'alpha': D({}), 'mid.sh': F(3, mode=0o755), 'beta.txt': F(2), 'omega': D({}), 'gamma.sh': F(4, mode=0o755),
+                            'delta.tar': F(5), 'aaa.jpg': F(6), 'link': {'t': 'l', 'to': 'zeta.txt'}, 'kappa': F(7)})
+    colors = {'LS_COLORS': 'di=01;34:ln=01;36:ex=01;32:*.tar=01;31:*.jpg=01;35:*.txt=00;33', 'TERM': 'xterm-256color'}
+    outs = []
+    try:
+        for sel, ob, key in (('name', '1', 'name'), ('name, size', '1', 'name'), ('size, name', '2', 'name'), ('name', '1 desc', 'name'), ('name', 'name', 'name'),
+                             ('name, size', '2', 'size'), ('name, size', '2 desc, 1', 'size'), ('path, name', '2', 'name'), ('name, ext', '2, 1', 'ext')):
+            q = '%s from . order by %s' % (sel, ob)
+            if group.get('only') is not None and group['only'] != q:
+                continue
+            ref = env.run([q + ' into tabs'], cwd=root)
+            rc, text, err, raw = run_on_terminal(env, [q], root, colors)
+            res = {'case': {'kind': 'tty', 'query': q}, 'layer': 'terminal', 'nt': True, 'trans': 10}
+            want = [l.split('\t') for l in ref.out.decode().split('\n') if l]
+            got = [l.split('\t') for l in text.split('\n') if l]
+            if ref.rc != 0 or len(want) != 10:
+                raise core.MachineryError('C05 tty reference run failed %r' % ref.brief())
+            if rc != 0 or err:
+                res.update(status='viol', cls='terminal:status', detail={'query': q, 'rc': rc, 'err': err[:200].decode('utf-8', 'replace')}, sig=('err',))
+            elif got != want:
+                res.update(status='viol', cls='terminal:order-differs-from-pipe', sig=('tty', ob), detail={'query': q, 'terminal': got[:10], 'pipe': want[:10],
+                                                                                                            'coloured': '\x1b[' in raw})
+            else:
+                res.update(status='ok', sig=(q, '\x1b[' in raw))
+            outs.append(res)
     finally:
         env.rmtree(root)
     return outs
@@ -230,6 +299,8 @@ def eval_group(env, group, tier):
         return eval_arcdate(env, group)
     if group.get('kind') == 'oddkeys':
         return eval_oddkeys(env, group)
+    if group.get('kind') == 'tty':
+        return eval_tty(env, group)
     root = env.newdir('c5')
     core.materialise(root, om.ord_tree())
     keys = group['keys']
@@ -242,8 +313,18 @@ def eval_group(env, group, tier):
         if sorted(base.rows()) != sorted(thru.rows()) or sorted(base.rows()) != sorted(ents):
             raise core.MachineryError('shim pass-through / model self-test failed')
         for c in group['cases']:
-            w = ' where size gt 4' if c['where'] else ''
-            universe = sorted(p for p, e in ents.items() if not c['where'] or e['size'] > 4)
+            if c['where'] == 'or':
+                ktype, kf = om.KEYS[keys[0]]
+                vals = sorted(kf(e) for e in ents.values())
+                cut = vals[(2 * len(vals)) // 3]
+                lit = {'num': str(cut), 'str': "'%s'" % cut, 'date': "'2019-01-01'"}[ktype]
+                if ktype == 'date':
+                    cut = 1546300800
+                w = " where ext = 'txt' or %s > %s" % (keys[0], lit)
+                universe = sorted(p for p, e in ents.items() if e['ext'] == 'txt' or kf(e) > cut)
+            else:
+                w = ' where size gt 4' if c['where'] else ''
+                universe = sorted(p for p, e in ents.items() if not c['where'] or e['size'] > 4)
             if c['spell'] == 'decoy':
                 # other columns that mention the key columns (negated, scaled, wrapped) must not influence the order
                 sel = ['path', '-size', '-hardlinks', 'size * 3', 'upper(name)', 'length(name) + 1', '-length(name)', 'lower(ext)']
